@@ -387,7 +387,12 @@ class Term:
             intercepts = [
                 GroupSpecificTerm(Intercept(), p[1]) for p in product([self], other.common_terms)
             ]
-            slopes = [GroupSpecificTerm(p[0], p[1]) for p in product([self], other.common_terms)]
+            # Each (effect, factor) pair gets its own copy of the effect: its coding (full or
+            # reduced) depends on the factor it is paired with.
+            slopes = [
+                GroupSpecificTerm(deepcopy(p[0]), p[1])
+                for p in product([self], other.common_terms)
+            ]
             return Model(*intercepts, *slopes)
         else:  # pragma: no cover
             return NotImplemented
@@ -1052,7 +1057,8 @@ class Model:
             return Model(*terms)
         elif isinstance(other, type(self)):
             products = product(self.common_terms, other.common_terms)
-            terms = [GroupSpecificTerm(p[0], p[1]) for p in products]
+            # Each (effect, factor) pair gets its own copy of the effect (see Term.__or__)
+            terms = [GroupSpecificTerm(deepcopy(p[0]), p[1]) for p in products]
             return Model(*terms)
         else:  # pragma: no cover
             return NotImplemented
